@@ -44,6 +44,50 @@ func wholeSecondsOf(v ssa.Value) (ssa.Value, bool) {
 	return nil, false
 }
 
+// the same judgements on symbolic values (helpers and struct fields inlined, km.SymOf)
+func symNowOrEarlier(s *km.Sym) bool {
+	if a, ok := s.IsCall("time.Now"); ok && len(a) == 0 {
+		return true
+	}
+	if a, ok := s.IsCall("(time.Time).Add"); ok && len(a) == 2 {
+		if d, isC := a[1].ConstInt(); isC && d <= 0 {
+			return symNowOrEarlier(a[0])
+		}
+	}
+	return false
+}
+
+func symNowEpoch(s *km.Sym) bool {
+	if s == nil || s.Op != "conv" {
+		return false
+	}
+	a, ok := s.Args[0].IsCall("(time.Time).Unix")
+	if !ok || len(a) != 1 {
+		return false
+	}
+	n, ok := a[0].IsCall("time.Now")
+	return ok && len(n) == 0
+}
+
+func symWholeSeconds(s *km.Sym) (*km.Sym, bool) {
+	for i := 0; i < 3 && s != nil && s.Op == "conv"; i++ {
+		s = s.Args[0]
+	}
+	if a, ok := s.IsCall("(time.Duration).Seconds"); ok && len(a) == 1 {
+		return a[0], true
+	}
+	if s != nil && s.Op == "binop" && s.Name == "/" {
+		if k, isC := s.Args[1].ConstInt(); isC && k == int64(1e9) {
+			d := s.Args[0]
+			if d.Op == "conv" {
+				d = d.Args[0]
+			}
+			return d, true
+		}
+	}
+	return nil, false
+}
+
 func isCall(v ssa.Value, name string) (*ssa.Call, bool) {
 	cl, ok := km.Unwrap(v).(*ssa.Call)
 	if !ok || km.CalleeFull(cl.Common()) != name {
@@ -329,6 +373,9 @@ func checkC03(c *km.Ctx) {
 					okAll = false
 				}
 			}
+			if !okAll && symNowOrEarlier(km.SymOf(st.Val)) {
+				okAll = true
+			}
 			r.Add("R-C03-2", km.FuncName(fn), "NotBefore", posOf(c, st.At), "time.Now() (or earlier by a constant)", km.ValStr(st.Val), okAll)
 		}
 		for _, st := range na {
@@ -356,6 +403,19 @@ func checkC03(c *km.Ctx) {
 					desc = sprintf("base-now=%v D=%d ns", baseOK, k)
 				}
 			}
+			if !good {
+				// through value types with methods / constructor helpers
+				if a, ok := km.SymOf(st.Val).IsCall("(time.Time).Add"); ok && len(a) == 2 && symNowOrEarlier(a[0]) {
+					if lf.capConst == 0 {
+						good = dparam != nil && a[1].IsVal(dparam)
+					} else if k, isC := a[1].ConstInt(); isC {
+						good = k > 0 && k <= lf.capConst
+					}
+					if good {
+						desc = "symbolically: " + km.SymOf(st.Val).String()
+					}
+				}
+			}
 			r.Add("R-C03-2", km.FuncName(fn), "NotAfter", posOf(c, st.At), "now + D with D exactly the duration parameter (or a constant within the cap)", desc, good)
 		}
 	}
@@ -380,7 +440,7 @@ func checkC03(c *km.Ctx) {
 				return isNowUnix(cv.X)
 			}
 			for _, st := range va {
-				r.Add("R-C03-2", km.FuncName(fn), "ValidAfter", posOf(c, st), "uint64(time.Now().Unix())", km.ValStr(st.Val), isNowEpoch(st.Val))
+				r.Add("R-C03-2", km.FuncName(fn), "ValidAfter", posOf(c, st), "uint64(time.Now().Unix())", km.ValStr(st.Val), isNowEpoch(st.Val) || symNowEpoch(km.SymOf(st.Val)))
 			}
 			for _, st := range vb {
 				b, ok := km.Unwrap(st.Val).(*ssa.BinOp)
@@ -394,7 +454,22 @@ func checkC03(c *km.Ctx) {
 						}
 					}
 				}
+				viaSym := false
+				if !good {
+					if sy := km.SymOf(st.Val); sy.Op == "binop" && sy.Name == "+" && symNowEpoch(sy.Args[0]) && sy.Args[1].Op == "conv" {
+						if d, ok := symWholeSeconds(sy.Args[1].Args[0]); ok && d.IsVal(dparam) {
+							good, viaSym = true, true
+						}
+					}
+				}
 				r.Add("R-C03-2", km.FuncName(fn), "ValidBefore", posOf(c, st), "ValidAfter + uint64(whole seconds of the duration parameter)", km.ValStr(st.Val), good)
+				if viaSym {
+					// the conversion happens inside the helper; what it converts is this function's duration parameter,
+					// so the lower bound has to hold where the helper's result is used
+					stt := c.F.At(st)
+					nonNeg := stt.All(func(k km.Conj) bool { return km.ProveGE0(s.Augment(k), dparam) })
+					r.Add("R-C03-3", km.FuncName(fn), "uint64(duration.Seconds())", posOf(c, st), "duration >= 0 proven where the converted value is used", sprintf("%v", nonNeg), nonNeg)
+				}
 				if conv != nil {
 					stt := c.F.At(conv)
 					nonNeg := stt.All(func(k km.Conj) bool { return km.ProveGE0(s.Augment(k), dparam) })
@@ -422,6 +497,10 @@ func checkC03(c *km.Ctx) {
 					}
 					stt := c.F.At(cv)
 					nonNeg := stt.All(func(k km.Conj) bool { return km.ProveGE0(k, d) })
+					if !nonNeg {
+						// a small helper converting a field or parameter: the bound has to hold at every call of it
+						nonNeg = nonNegAtCallers(c, s, f2, cv.X, 0)
+					}
 					r.Add("R-C03-3", km.FuncName(f2), "unsigned conversion of a duration", posOf(c, cv), "operand >= 0 proven at the conversion", sprintf("%v", nonNeg), nonNeg)
 				}
 			})
@@ -505,4 +584,60 @@ func proveLEConst(k km.Conj, v ssa.Value, bound int64) bool {
 		}
 	}
 	return false
+}
+
+// nonNegAtCallers: operand (a value of helper fn, converted to an unsigned type as whole seconds of a duration) is
+// proven >= 0 at every static call of fn: seen from the call, the duration is a value of the caller's frame whose
+// lower bound the caller's facts at the call establish - or again a parameter, judged at the caller's callers.
+func nonNegAtCallers(c *km.Ctx, s *km.Sem, fn *ssa.Function, operand ssa.Value, depth int) bool {
+	sites := c.G.Callers[fn]
+	if depth > 2 || len(sites) == 0 || len(c.G.AddrTaken[fn]) > 0 {
+		return false
+	}
+	for _, cs := range sites {
+		ci, ok := cs.Instr.(ssa.CallInstruction)
+		if !ok {
+			return false
+		}
+		d, ok := symWholeSeconds(km.SymAtCall(operand, fn, ci))
+		if !ok || d.Op != "val" {
+			return false
+		}
+		st := c.F.At(cs.Instr)
+		if len(st) > 0 && st.All(func(k km.Conj) bool { return km.ProveGE0(s.Augment(k), d.Val) }) {
+			continue
+		}
+		// handed in from further up
+		p, isP := d.Val.(*ssa.Parameter)
+		if !isP || !paramNonNegAtCallers(c, s, cs.Caller, p, depth+1) {
+			return false
+		}
+	}
+	return true
+}
+
+func paramNonNegAtCallers(c *km.Ctx, s *km.Sem, fn *ssa.Function, p *ssa.Parameter, depth int) bool {
+	sites := c.G.Callers[fn]
+	if depth > 2 || len(sites) == 0 || len(c.G.AddrTaken[fn]) > 0 {
+		return false
+	}
+	for _, cs := range sites {
+		ci, ok := cs.Instr.(ssa.CallInstruction)
+		if !ok {
+			return false
+		}
+		d := km.SymAtCall(p, fn, ci)
+		if d.Op != "val" {
+			return false
+		}
+		st := c.F.At(cs.Instr)
+		if len(st) > 0 && st.All(func(k km.Conj) bool { return km.ProveGE0(s.Augment(k), d.Val) }) {
+			continue
+		}
+		q, isP := d.Val.(*ssa.Parameter)
+		if !isP || !paramNonNegAtCallers(c, s, cs.Caller, q, depth+1) {
+			return false
+		}
+	}
+	return true
 }
